@@ -158,6 +158,7 @@ def run(ctx):
             continue
         if f.name in (ee.name, ete.name):
             ncond += 1 if evaltables.rule_conditional(ctx, "C01-truthiness", f) else 0
+            evaltables.rule_truthiness(ctx, "C01-truthiness", f)
         else:
             ncond += conditional_rule(ctx, fb, f, vidx, ab.name, ee.name)
     if ncond < 2:
